@@ -419,8 +419,8 @@ def check_pointers(case, ptr_t, oshape, got, want, summed, table, rtol, atol):
                         f"cell {c}: pointer {list(vals)} out of range for sizes {[sizes[l] for l in summed]}"))
             return out
         at = table[c][vals]
-        if want[c] == -INF and got[c] == -INF:
-            continue
+        if (want[c] == -INF and got[c] == -INF) or got[c] != got[c]:
+            continue                                          # NaN maxima are reported by the value clause
         if not close(at, got[c], rtol, atol) or not close(at, want[c], rtol, atol):
             out.append(("pointer.argmax", "ptr-not-argmax",
                         f"cell {c}: product at pointer {list(vals)} is {at!r}; returned maximum {got[c]!r}; true maximum {want[c]!r}"))
@@ -549,7 +549,7 @@ def unit_cases(unit, seed: int, tier: str):
     k = n_labels(inputs)
     if fn in ("mv", "mm"):
         k = 2 if fn == "mv" else 3
-    sz = size_assignments(k, rng, ndraws, zero=True)
+    sz = size_assignments(k, rng, ndraws, zero=(uid % 3 == 0))
     for i, sizes in enumerate(sz):
         yield gen_case(fn, sr, dtype, rg, inputs, output, sizes, rng, tier, lab=(uid + i) % 4 if fn in ("einsum", "viterbi") else 1)
 
@@ -603,6 +603,10 @@ def _worker(args):
                 fails.append({"case": case, "clause": clause, "keyclass": kc, "detail": detail})
     return {"n": ncases, "digests": digests, "fails": fails, "samples": samples, "per_fn": per_fn,
             "used": used_patterns, "oos": oos, "oos_samples": oos_samples}
+
+
+def _warm(key):
+    return G.patterns_for_shape(key[0], key[1])
 
 
 def fail_key(f) -> str:
@@ -664,8 +668,8 @@ def build_units(ctx: Ctx) -> Tuple[List[Any], Dict[str, Any]]:
         for inputs in sigs_big:
             k = n_labels(inputs)
             outs = all_outputs(k)
-            if len(outs) > 6:
-                outs = [outs[0], outs[-1]] + rng.sample(outs[1:-1], 4)
+            if len(outs) > 16:
+                outs = [outs[0], outs[-1]] + rng.sample(outs[1:-1], 10)
             for oi, output in enumerate(outs):
                 nb += 1
                 cs = combos(False)
@@ -674,7 +678,7 @@ def build_units(ctx: Ctx) -> Tuple[List[Any], Dict[str, Any]]:
                 if nb % 3 == 0:
                     units.append(("viterbi", "Viterbi", "float64", bool(nb % 2), inputs, output, 1, uid)); uid += 1
         info["signatures_big(<=3 operands,<=4 labels, rest)"] = len(sigs_big)
-        info["(inputs,output) pairs big (6 outputs sampled per signature when > 6)"] = nb
+        info["(inputs,output) pairs big (12 of the 65 output lists sampled for 4-label signatures)"] = nb
     else:
         # a smoke sample of the larger signatures in the quick tier
         big = [s for s in enum_inputs(3, 4, min_ops=3)]
@@ -703,11 +707,17 @@ def run_bounded(ctx: Ctx) -> Report:
     t0 = time.time()
     rep = Report(property_id="C07", level="exploration")
     units, info = build_units(ctx)
-    # warm the pattern caches in the parent so that forked workers share them
-    for shape in itertools.chain([()], *[itertools.product((0, 1, 2, 3), repeat=r) for r in (1, 2, 3)]):
-        if sum(1 for s in shape if s == 0) <= 1:
-            G.patterns_for_shape(tuple(shape), ctx.tier)
     jobs = max(1, ctx.jobs)
+    # fill gen_pt's pattern cache (in parallel) before forking the workers, so that they share it
+    shapes = [tuple(s) for s in itertools.chain([()], *[itertools.product((0, 1, 2, 3), repeat=r) for r in (1, 2, 3)])]
+    todo = [(s, ctx.tier) for s in shapes if (s, ctx.tier) not in G._PFS_CACHE]
+    if jobs > 1 and todo:
+        with mp.get_context("fork").Pool(jobs) as pool:
+            for key, pats in zip(todo, pool.map(_warm, todo, chunksize=1)):
+                G._PFS_CACHE[key] = pats
+    else:
+        for key in todo: _warm(key)
+    t_warm = time.time() - t0
     nchunks = jobs * 12
     # interleave so that every chunk gets a similar mix
     chunks = [units[i::nchunks] for i in range(nchunks)]
@@ -744,7 +754,7 @@ def run_bounded(ctx: Ctx) -> Report:
                 avail.add(canon({"pool": p["pool"], "vaxes": p["vaxes"], "storage": p["storage"]}))
     bounds = {
         "einsum": ("every signature with <= 2 operands / <= 3 labels (operand rank <= 3, repeated labels allowed) x every "
-                   "duplicate-free output list" + (", plus every signature with <= 3 operands / <= 4 labels x 6 output lists"
+                   "duplicate-free output list" + (", plus every signature with <= 3 operands / <= 4 labels x every output list (<= 3 labels) / 12 sampled output lists (4 labels)"
                    if ctx.thorough else ", plus 400 sampled 3-operand signatures") +
                    ", plus the empty operand list; label sizes in {1,2,3} and one zero-size assignment per unit; "
                    "operands = well-typed patterns from patterns_for_shape (dense, diagonal, SumAxis, unit, stride-0/transposed "
@@ -780,7 +790,7 @@ def run_bounded(ctx: Ctx) -> Report:
             replay={"module": MODULE, "func": "replay_case", "case": c}, detail=f["detail"], key=k))
     rep.extra["c07_bounded"] = {"units": len(units), "cases": total, "failures_by_key": count, "scope": info,
                                 "generated_but_out_of_scope": oos, "out_of_scope_samples": oos_samples[:2],
-                                "wall_s": round(time.time() - t0, 1)}
+                                "wall_s": round(time.time() - t0, 1), "pattern_cache_s": round(t_warm, 1)}
     rep.assumptions.append("C07 bounded: operands with requires_grad=True are evaluated under torch.no_grad(), as inside "
                            "SumProduct.forward; with grad mode enabled RealSemiring.einsum raises (out= on a tensor that requires grad)")
     rep.assumptions.append("C07 bounded: 'well-typed' = every label has an algebraic index type and every zero-default operand axis "
